@@ -548,12 +548,17 @@ class ASTListener(ModelicaListener):
             import_list = ctx.import_list()
             if import_list is not None:
                 package_name = import_clause.components.pop()
-                # Append list of names to package_name to get fully qualified name(s)
-                # Skip the comma separators in import_list.children
-                for ident in import_list.children[::2]:
-                    qualified_name = package_name.concatenate(
-                        package_name.from_string(ident.getText())
-                    )
+                # Append list of names to package_name to get fully qualified name(s).
+                # The rule import_list is right-recursive (IDENT (',' import_list)*):
+                # collect the IDENT of every nesting level
+                names = []
+                pending = [import_list]
+                while pending:
+                    sub_list = pending.pop(0)
+                    names.append(sub_list.IDENT().getText())
+                    pending = list(sub_list.import_list()) + pending
+                for name in names:
+                    qualified_name = package_name.concatenate(package_name.from_string(name))
                     import_clause.components.append(qualified_name)
             elif ctx.getChildCount() > 3:
                 import_clause.unqualified = True
